@@ -30,7 +30,7 @@ ALL_PROP = sorted({x for v in PROPERTIES.values() for x in v})
 
 def const_block(workers, channels, jobids, clients, *, maxjobs, maxtime, restart, wait, info, drop,
                 reconnect, atomic, strings=True, prios="{0, 1}", tmos="{1, 100}", ttls="{100}",
-                killers=None, switches=None, anyorder=False):
+                killers=None, switches=None, anyorder=False, anydeadline=False):
     q = (lambda x: '"%s"' % x) if strings else (lambda x: x)
     sw = {"OverwriteMailbox": False, "DropOnKill": False, "RequeueDone": False, "DeliverDone": False}
     sw.update(switches or {})
@@ -47,7 +47,7 @@ def const_block(workers, channels, jobids, clients, *, maxjobs, maxtime, restart
     ] + ["%s = %s" % (k, B(v)) for k, v in sorted(sw.items())] + [
         "WithRestart = " + B(restart), "WithWait = " + B(wait), "WithInfo = " + B(info),
         "WithDrop = " + B(drop), "WithReconnect = " + B(reconnect), "AtomicDrain = " + B(atomic),
-        "AnyRequeueOrder = " + B(anyorder),
+        "AnyRequeueOrder = " + B(anyorder), "AnyDeadlineStart = " + B(anydeadline),
     ]
     return "CONSTANTS\n  " + "\n  ".join(lines) + "\n"
 
@@ -342,7 +342,7 @@ def normalise(events):
 def trace_cfg(invs, props, deadlock=False):
     return ("SPECIFICATION TraceSpec\n" +
             const_block(WORKERS, CHANNELS, JOBIDS, CLIENTS, maxjobs=1000, maxtime=100000, restart=True, wait=True,
-                        info=True, drop=True, reconnect=True, atomic=False, anyorder=True,
+                        info=True, drop=True, reconnect=True, atomic=False, anyorder=True, anydeadline=True,
                         killers=['"admin"'] + ['"%s"' % w for w in WORKERS]) +
             "INVARIANTS " + " ".join(list(invs) + ([] if deadlock else ["EmitConsumed"])) + "\n" +
             ("PROPERTIES " + " ".join(props) + "\n" if props else "") +
